@@ -239,6 +239,8 @@ class AbsExec:
             return Ref(fr, pl["l"], pl["p"])
         if k == "cast":
             v = self.operand(fr, rv["op"])
+            if isinstance(v, tuple) and len(v) == 2 and v[0] == "fnref":
+                return v          # fn item → fn pointer
             if isinstance(v, bool):
                 return int(v)
             if isinstance(v, int):
@@ -379,6 +381,11 @@ class AbsExec:
             if k == "call":
                 from .terms import _fnkey
                 fk = _fnkey(t.get("fn"), t)
+                if t.get("fn") is None and "fn_operand" in t:
+                    # a call through a function pointer: when the pointer provably holds one fn item, it is that call
+                    fv = self.operand(fr, t["fn_operand"])
+                    if isinstance(fv, tuple) and len(fv) == 2 and fv[0] == "fnref":
+                        fk = fv[1]
                 args = [self.operand(fr, a) for a in t["args"]]
                 val = self.domain.call(self, fk, args, t, fr)
                 if val is NotImplemented:
